@@ -9,7 +9,7 @@ def derive(rec):
     ea = r.get('easter', [])
     cross = bool(ea) and (min(ea) < -80 or max(ea) > 240)
     return {'n_easter': len(ea), 'easter_cross_year': cross, 'displaced': bool(sh[0] or sh[2]) or cross, 'freq': r.get('freq'), 'inter': r.get('inter', 1), 'has_shift': bool(sh[0] or sh[2]), 'dshift': sh[0], 'bshift': sh[1], 'bdir': sh[2], 'binv': sh[3] if len(sh) > 3 else 0,
-            'abs_displacement': abs(sh[0]) + abs(sh[1]) * 7 // 5 + (4 if sh[2] else 0), 'has_easter': bool(r.get('easter')), 'has_pos': bool(r.get('pos')),
+            'abs_displacement': abs(sh[0]) + abs(sh[1]) * 7 // 5 + (4 if sh[2] else 0) + (max(abs(x) for x in ea) if ea and bool(sh[0] or sh[2]) else 0), 'has_easter': bool(r.get('easter')), 'has_pos': bool(r.get('pos')),
             'has_md': bool(r.get('md')), 'has_dow': bool(r.get('dow')), 'has_mon': bool(r.get('mon')), 'has_yd': bool(r.get('yd')), 'has_wk': bool(r.get('wk')),
             'ntod': max(1, len(r.get('H', []))) * max(1, len(r.get('M', []))) * max(1, len(r.get('S', []))), 'has_count': bool(r.get('count')), 'has_until': bool(r.get('until'))}
 
